@@ -234,7 +234,9 @@ Definition check_concurrent (evs outs : list sx) : verdict :=
 Definition check (c : sx) : verdict :=
   match c with
   | SList [SList (SInt 9 :: _); SList [SList evs; SList outs]] => check_concurrent evs outs
-  | SList [SList [SList evs; SList raws]; SList [SList outs; SList gouts]] =>
+  | SList [SList (SList evs :: SList raws :: _); SList [SList outs; SList gouts]] =>
+      (* an optional third input component marks a history driven through the package-level
+         API (uuid.Init / uuid.NextID); it is judged like any other *)
       match map_opt event_of evs, map_opt obs_of outs, map_opt sx_int raws, map_opt gout_of gouts with
       | Some h, Some obs, Some rw, Some go =>
           if Nat.eqb (length h) (length obs) then
